@@ -65,6 +65,7 @@ TEMPLATES = [
     ["run_sim", "sampled_sims_no_uncertainty"],
     ["build", "pickle", "combined_scenario_run", "process_copy", "process_orig"],
     ["program_scenario_run", "run_sim", "program_scenario_run"],
+    ["scenario_run", "run_sim", "scenario_run"],
     ["build", "deepcopy", "adjust_copy", "process_orig"],
     ["build", "dcp", "adjust_copy", "process_orig", "run_sim"],
     ["build", "program_scenario_run", "process_orig", "program_scenario_run"],
